@@ -59,6 +59,20 @@ type unit struct {
 // extraChecks lets a property add obligations that are not function contracts (effect checker etc.).
 var extraChecks = map[string]func(p *Program, tier string) []*FuncReport{}
 
+func init() {
+	custom := func(pkg string) bool { return true }
+	vestSig := func(pkg string) bool {
+		return strings.Contains(pkg, "/x/cfevesting") || strings.Contains(pkg, "/x/cfesignature")
+	}
+	extraChecks["C01"] = func(p *Program, tier string) []*FuncReport {
+		// vesting and signature entry points never mint or burn; every call respects the declared effect sets
+		return []*FuncReport{runEffectCheck(p, "supply", map[string]bool{EffMint: true, EffBurn: true}, vestSig)}
+	}
+	extraChecks["C11"] = func(p *Program, tier string) []*FuncReport {
+		return []*FuncReport{runEffectCheck(p, "determinism", map[string]bool{EffTime: true, EffRand: true, EffMapRange: true, EffGo: true, EffGlobalW: true}, custom)}
+	}
+}
+
 // propertyNotes: per property, the level note / assumptions repeated in the evidence.
 var propertyAssumptions = map[string][]string{}
 
